@@ -170,7 +170,7 @@ def run_path(pp, solver, tvars, entry, n, decisions, extra_pc=(), nd_shared=None
             m.nd_vars.append(nd_shared[k]); return Sym(nd_shared[k])
         return m.fresh_bool()
     def log_ev(m, a, raw):
-        e = a[0]; log.append(tuple(int(x) if isinstance(x, bool) else x for x in e.f)); return UNIT
+        e = a[0]; log.append(tuple(int(x) if isinstance(x, bool) else (tokterm(x) if x.__class__ is Sym else x) for x in e.f)); return UNIT
     r.intercepts['nondet_bool'] = nondet
     r.intercepts['log_ev'] = log_ev
     # C08: hard state at get_state / after set_state
@@ -340,7 +340,7 @@ def compare_native(h, res, nat):
     nodes = [[k, concretise(a, w), b] for k, a, b in res.nodes]
     if nodes != nat['nodes']: return f'nodes differ: {nodes} vs {nat["nodes"]}'
     if [list(d) for d in res.diags] != nat['diags']: return f'diags differ: {res.diags} vs {nat["diags"]}'
-    elog = [[e[0], e[1], e[2], e[3], e[4], e[5], -1 if e[6] == 9999999 else (-2 if e[6] == 9999998 else e[6]), e[7]] for e in res.log]
+    elog = [[concretise(x, w) for x in (e[0], e[1], e[2], e[3], e[4], e[5], -1 if e[6] == 9999999 else (-2 if e[6] == 9999998 else e[6]), e[7])] for e in res.log]
     if elog != nat['log']: return f'log differs: {elog} vs {nat["log"]}'
     if res.walk_err is not None:
         return None if nat['walk'] == 'PANIC' else f'engine walk error ({res.walk_err}) but native walk ok'
